@@ -20,6 +20,21 @@ CONV = {
 }
 
 
+def slice_row(row, v):
+    """(payload given to the generator, index of the first check character, number of check characters) of v under a binding row"""
+    conv = row['conv']
+    bnd = row.get('b', [0, 0, 0, 1])
+    if conv == 'cat':    # payload = concatenation of slices of v (0-based [a, b), b <= 0 from the end); check slice from b
+        ck2 = len(v) + bnd[2] if bnd[2] < 0 else bnd[2]
+        return ''.join(v[a:(len(v) + b if b <= 0 else b)] for a, b in row.get('pl', [])), ck2, bnd[3]
+    if conv != 'gen':
+        return CONV[conv](v)
+    pa, pb, ck, cn = bnd
+    pb2 = len(v) + pb if pb <= 0 else pb
+    ck2 = len(v) + ck if ck < 0 else ck
+    return v[pa:pb2], ck2, cn
+
+
 def worker(unit, emit):
     key, row, p, vopts = unit
     name, fn = key.split('#')[0].split(':')
@@ -32,15 +47,7 @@ def worker(unit, emit):
     cat_pl = row.get('pl', [])
 
     def slicer(v):
-        if conv == 'cat':    # payload = concatenation of slices of v (0-based [a, b), b <= 0 from the end); check slice from b
-            ck2 = len(v) + bnd[2] if bnd[2] < 0 else bnd[2]
-            return ''.join(v[a:(len(v) + b if b <= 0 else b)] for a, b in cat_pl), ck2, bnd[3]
-        if conv != 'gen':
-            return CONV[conv](v)
-        pa, pb, ck, cn = bnd
-        pb2 = len(v) + pb if pb <= 0 else pb
-        ck2 = len(v) + ck if ck < 0 else ck
-        return v[pa:pb2], ck2, cn
+        return slice_row(row, v)
     excl = set(getattr(mod, row['exclude_attr'])) if row.get('exclude_attr') else set()
     rnd = random.Random('%s/%s' % (p['seed'], key))
     vals = []
